@@ -732,7 +732,7 @@ def probe_and_cms(ctx, o):
         role = s.extra['role']
         if s.cls is cm:
             o.count()
-            if (role[0] == 'method' and role[1] not in ('append',)) or (role[0] == 'store' and s.func.name != '__init__'):
+            if (role[0] == 'method' and role[1] not in ('append', 'copy', 'index', 'count')) or (role[0] == 'store' and s.func.name != '__init__'):
                 o.fail(P, s.ctx, s.stmt, 'the list of registered sensors is changed outside add_sensor', file=s.mod.path, line=s.line)
 
 
